@@ -52,9 +52,16 @@ def concretize(model, v, st: State, window, depth=0):
         if depth < 2:
             for a, s in v.sort.attrs.items():
                 key = (v.sort.name, a)
-                if key in st.heap:
-                    out[a] = concretize(model, st.heap_sorts[key].wrap(z3.Select(st.heap[key], v.t)),
-                                        st, window, depth + 1)
+                if s is None:
+                    continue
+                try:
+                    # the entry-state heap array of an attribute is the constant H.<sort>.<attr>
+                    arr = st.heap.get(key)
+                    if arr is None:
+                        arr = z3.Const(f'H.{v.sort.name}.{a}', z3.ArraySort(v.sort.z3(), s.z3()))
+                    out[a] = concretize(model, s.wrap(z3.Select(arr, v.t)), st, window, depth + 1)
+                except Exception:   # noqa
+                    pass
         return out
     if isinstance(v, VList):
         n = ev(v.n)
@@ -85,6 +92,27 @@ def concretize(model, v, st: State, window, depth=0):
     return None
 
 
+def _small_constraints(scope):
+    out = []
+    st = scope._st
+    seen = set()
+
+    def walk(v):
+        if isinstance(v, Alias):
+            v = st.read(v.loc)
+        if isinstance(v, VList):
+            out.append(lambda b, v=v: v.n <= b)
+        elif isinstance(v, VInt):
+            out.append(lambda b, v=v: z3.And(v.t <= 100 + b * 2, v.t >= -2))
+        elif isinstance(v, VRec) and v.rid not in seen:
+            seen.add(v.rid)
+            for f in st.store[v.rid].values():
+                walk(f)
+    for v in scope._names.values():
+        walk(v)
+    return out
+
+
 def _check(idx):
     ob: Obligation = _OBLIGS[idx]
     t0 = time.time()
@@ -104,6 +132,18 @@ def _check(idx):
     if r == z3.sat and ob.inputs is not None:
         try:
             m = s.model()
+            # prefer a small counter-model (short lists, small numbers): it can be rebuilt as real objects
+            small = _small_constraints(ob.inputs)
+            if small:
+                for bound in (4, 8, 16):
+                    s.push()
+                    s.set('timeout', 3000)
+                    s.add(*[c(bound) for c in small])
+                    if s.check() == z3.sat:
+                        m = s.model()
+                        s.pop()
+                        break
+                    s.pop()
             ints = model_ints(m)
             ints = {i for i in ints if -1000 <= i <= 100000}
             window = set()
